@@ -109,7 +109,7 @@ Section Spec.
   Qed.
 
   Lemma loaded_ok_of_load (x : stored) :
-    load_ok lower is_space (l_cap c) s (l_cfg c) (l_ip c) (l_envx c) x -> sd_fresh x = true ->
+    load_ok lower is_space (l_cap c) s (l_cfg c) (l_ip c) (l_envx c) x -> sd_servable x = true ->
     loaded_ok lower is_space c (c_hash (sd_cert x)) = true.
   Proof.
     intros (nm & Hn & Hq & Ha & Hl) Hfr. unfold loaded_ok. fold s. rewrite Ha, Hn, Hq, Hl, Hfr, str_eqb_refl. reflexivity.
